@@ -220,7 +220,19 @@ class CallMixin:
         tag = f'{fi.qualname}@{ln}'
         if c.requires is not None:
             req = c.requires(sc)
-            for nm, g in _named(req, 'pre'):
+            for item in _named3(req, 'pre'):
+                nm, g, meta = item
+                static = (meta or {}).get('static')
+                if static and nm in getattr(self, 'entry_static', {}):
+                    # ghost axiom about the static structure, assumed at entry under the same name: it still holds if the
+                    # fields it reads are unchanged on pre-state objects (positive identities)
+                    for f in static:
+                        now, ent = self.heap.arr(f), self.pre_heap.arr(f)
+                        if now.eq(ent):
+                            continue
+                        r = run.fresh('sr', sym.I)
+                        run.oblige(f'call:{tag}.{nm}.unchanged:{f}', z3.Implies(r > 0, z3.Select(now, r) == z3.Select(ent, r)), kind='pre', lineno=ln)
+                    continue
                 run.oblige(f'call:{tag}.{nm}', g, kind='pre', lineno=ln)
         # exceptional outcomes
         outcomes = [None]
@@ -791,7 +803,28 @@ class CallMixin:
         return self.eng.call_builtin_ext(self, name, a, kw, n, fr, as_cm)
 
 
+def _named3(res, default):
+    out = []
+    if res is None:
+        return out
+    if not isinstance(res, (list, tuple)) or (isinstance(res, tuple) and res and isinstance(res[0], str)):
+        res = [res]
+    for x in res:
+        if isinstance(x, tuple):
+            if len(x) == 3:
+                out.append(x)
+            else:
+                out.append((x[0], x[1], None))
+        else:
+            out.append((default, x, None))
+    return out
+
+
 def _named(res, default):
+    return [(a, b) for a, b, _ in _named3(res, default)]
+
+
+def _named_old(res, default):
     if res is None:
         return []
     if isinstance(res, (list, tuple)):
